@@ -115,6 +115,8 @@ def run(ctx):
     check_generation(ctx, gfns)
     check_uniqueness(ctx)
     check_argument_scan(ctx, gfns)
+    check_edge_selection(ctx, gfns)
+    check_package_closure(ctx, gfns)
 
 
 def agg_payload_locals(prov, f, operand, variant):
@@ -438,6 +440,118 @@ def check_argument_scan(ctx, gfns):
                            "passing one node for two arguments reports success without adding the second edge" % v_.rv.j.get("variant"),
                            site="%s in %s" % (v_.span, f.id))
     ctx.ob("R06.8", "count", n >= 2, "verdicts inside the already-passed scan: %d" % n, nontrivial=False)
+
+
+def payload_guards(ctx, g):
+    """true-branch target sets of the switches in g that compare an Edge::Argument payload with an argument index
+    obtained from the world's import map (get_index_of / get_full)."""
+    from facts import Operand
+    prov = ctx.prov
+    out = []
+    for b in g.blocks:
+        if b.cleanup or b.term.k != "switch":
+            continue
+        sl = prov.slice(g, Operand(b.term.j["discr"]))
+        if any(nm == "0" and o.endswith("graph::Edge") and v == "Argument" for nm, o, v in sl.fields) \
+                and ("Eq" in sl.binops or sl.has_call("PartialEq")) and (sl.has_call("get_full") or sl.has_call("get_index_of")):
+            tt, ft = true_false_targets(b.term)
+            out.append(tt)
+    return out
+
+
+def check_package_closure(ctx, gfns):
+    """R06.10: unregister_package removes exactly the nodes whose `package` field names the package, so a node that
+    depends on a package's node through an Alias edge must carry that node's package unconditionally — otherwise an
+    alias (of an alias) of an unregistered package's instance survives with a dangling source."""
+    db, prov = ctx.db, ctx.prov
+    n = 0
+    for f in gfns:
+        adds = [t for t in f.calls() if t.path == SG + "add_edge" and ("wac_graph::graph::Edge", "Alias") in prov.slice(f, t.args[3]).aggs]
+        if not adds:
+            continue
+        ctx.touch(f)
+        news = [t for t in f.calls() if t.path == GRAPH + "Node::new" and ("wac_graph::graph::NodeKind", "Alias") in prov.slice(f, t.args[0]).aggs]
+        for t in news:
+            n += 1
+            sl = prov.slice(f, t.args[2])
+            inherits = sl.has_field("package", "graph::Node")
+            made = sorted(v for a, v in sl.aggs if a.endswith("option::Option"))
+            cond = sorted(a.split("::")[-1] for a in sl.discr)
+            ok = inherits and not made
+            ctx.ob("R06.10", "alias-inherits-package|%s" % f.id, ok,
+                   "an alias node always carries its source instance node's package" if ok else
+                   "the alias node's package is %s: unregister_package (which removes nodes by their package field) leaves such aliases behind with a dangling source"
+                   % ("built from Option::%s %s" % ("/".join(made), "depending on " + ",".join(cond) if cond else "") if made else "not taken from the source node"),
+                   site="%s in %s" % (t.span, f.id))
+    ctx.ob("R06.10", "count", n >= 1, "alias node constructions checked: %d" % n, nontrivial=False)
+
+
+def is_payload_predicate(ctx, g):
+    """closure whose returned value is itself `Edge::Argument payload == argument index`"""
+    sl = ctx.prov.slice(g, 0)
+    return any(nm == "0" and o.endswith("graph::Edge") and v == "Argument" for nm, o, v in sl.fields) \
+        and ("Eq" in sl.binops or sl.has_call("PartialEq")) and (sl.has_call("get_full") or sl.has_call("get_index_of"))
+
+
+def check_edge_selection(ctx, gfns):
+    """R06.9: the argument edge a mutator removes is *the* edge of the argument index whose satisfied bit it clears.
+    Two arguments of one instantiation may be fed by the same node (parallel edges), so an edge picked by its
+    endpoints alone (find_edge, or the first Argument edge of edges_connecting) can be the wrong one: every edge id
+    that reaches remove_edge comes from `EdgeRef::id()` evaluated under `payload == argument index`, or from an
+    iterator filtered by such a predicate; never from an endpoint-only lookup."""
+    db, prov = ctx.db, ctx.prov
+    n = 0
+    for f in gfns:
+        if "{closure" in f.id:
+            continue
+        rms = [t for t in f.calls() if t.path == SG + "remove_edge"]
+        if not rms:
+            continue
+        ctx.touch(f)
+        group = db.with_closures(f)
+        guards = {g.id: payload_guards(ctx, g) for g in group}
+        cfgs = {g.id: CFG(g) for g in group}
+        # predicate closures (return bool) that contain the payload comparison, handed to an iterator adaptor
+        pred_closures = {g.id for g in group if g is not f and (guards[g.id] or is_payload_predicate(ctx, g))}
+        for t in rms:
+            n += 1
+            sl = prov.slice(f, t.args[1])
+            paths = {(y.path or "") for _, y in sl.calls}
+            endpoint_only = sorted(p for p in paths if p.endswith(("::find_edge", "::find_edge_undirected")))
+            idcalls = [(g, y) for g, y in sl.calls if (y.path or "").endswith("EdgeRef>::id")]
+            bad = []
+            for g, y in idcalls:
+                gf = db.fn(g) if isinstance(g, str) else g
+                cg = cfgs.get(gf.id) or CFG(gf)
+                gs = guards.get(gf.id) if gf.id in guards else payload_guards(ctx, gf)
+                if any(any(cg.dominates(x, y.bb) for x in tt) for tt in gs):
+                    continue
+                # filtered-iterator idiom: the receiver comes out of find/filter/position with a guarding predicate
+                rcalls = [c for _, c in prov.slice(gf, y.args[0]).calls]
+                # ... also when the id() sits in a closure mapped over the filtered value (`.find(pred).map(|e| e.id())`)
+                for h in group:
+                    for c in h.calls():
+                        if any(strip_closure(fa) == gf.id for fa in c.fnargs) and c.args:
+                            rcalls += [c2 for _, c2 in prov.slice(h, c.args[0]).calls]
+                filt = [c for c in rcalls if (c.path or "").rsplit("::", 1)[-1] in ("find", "filter", "skip_while", "rfind")
+                        and any(strip_closure(fa) in pred_closures for fa in c.fnargs)]
+                if filt:
+                    continue
+                bad.append("%s in %s" % (y.span, gf.id))
+            ok = not endpoint_only and bool(idcalls) and not bad
+            ctx.ob("R06.9", "edge-selection|%s" % f.id, ok,
+                   "the removed edge id comes from EdgeRef::id() evaluated only under `Edge::Argument payload == argument index` (%d site(s))" % len(idcalls) if ok else
+                   "the edge handed to remove_edge is not selected by its argument index (%s): with one node passed for two arguments the edge of the *other* argument "
+                   "is removed while this argument's satisfied bit is cleared, so edges and the satisfied set disagree and the encoding passes an argument twice"
+                   % ("endpoint-only lookup " + ", ".join(p.rsplit("::", 1)[-1] for p in endpoint_only) if endpoint_only else
+                      "unguarded EdgeRef::id() at " + "; ".join(bad) if bad else "no EdgeRef::id() source found"),
+                   site="%s in %s" % (t.span, f.id))
+    ctx.ob("R06.9", "count", n >= 1, "remove_edge sites checked for edge selection: %d" % n, nontrivial=False)
+
+
+def strip_closure(p):
+    from facts import strip_generics
+    return strip_generics(p)
 
 
 def check_uniqueness(ctx):
